@@ -340,7 +340,7 @@ func retryCases(r *rand.Rand) []retryCase {
 	suite := gen.AllSuites[r.IntN(3)]
 	// the inner ALPN list in the client's order of preference, which need not be any sorted order
 	alpn := [][]string{{"h2", "http/1.1"}, {"http/1.1", "h2"}, {"spdy/3", "h2", "acme-tls/1"}, {"h3", "h2", "http/1.1"}}[r.IntN(4)]
-	o := gen.PlanOpts{NOuterOpaque: 2, NInnerOpaque: 1, MaxExtLen: 20, Padding: 4, SIDLen: 32, RefMask: uint64(r.IntN(4)), MarkerPos: r.IntN(3), InnerName: "inner.example", ALPN: alpn, PublicName: "public.example"}
+	o := gen.PlanOpts{NOuterOpaque: 2, NInnerOpaque: 1, MaxExtLen: 20, Padding: 4, SIDLen: 32, RefMask: uint64(r.IntN(4)), MarkerPos: r.IntN(3), InnerName: "inner.example", ALPN: alpn, PublicName: "public.example", RefOuterALPN: r.IntN(2) == 0}
 	plan := gen.Plan(r, o)
 	hrr := gen.ServerHelloRecord(r, true, plan.OuterBase.SID)
 	var out []retryCase
@@ -363,18 +363,27 @@ func retryCases(r *rand.Rand) []retryCase {
 					e2.Exts[i] = gen.SNI("changed.example")
 				}
 			}
-		case "A":
+		case "A", "R":
+			// the inner ALPN list changes - in the inner hello itself, or, when it is carried by reference,
+			// in the outer extension the reference resolves to
+			repl := gen.ALPN("h2")
+			if kind == "R" {
+				rev := slices.Clone(alpn)
+				slices.Reverse(rev)
+				repl = gen.ALPN(rev...)
+			}
+			own := false
 			for i, e := range e2.Exts {
 				if e.Type == 16 {
-					e2.Exts[i] = gen.ALPN("h2")
+					e2.Exts[i] = repl
+					own = true
 				}
 			}
-		case "R":
-			for i, e := range e2.Exts {
-				if e.Type == 16 {
-					rev := slices.Clone(alpn)
-					slices.Reverse(rev)
-					e2.Exts[i] = gen.ALPN(rev...)
+			if !own {
+				for i, e := range base2.Exts {
+					if e.Type == 16 {
+						base2.Exts[i] = repl
+					}
 				}
 			}
 		case "C":
